@@ -82,6 +82,7 @@ class Proc(threading.Thread):
         self.parked_at = None
         self.hook = hook
         self.m = None
+        self.locked = False
         self.seed = seed
         self.nprocs = nprocs
 
@@ -89,8 +90,20 @@ class Proc(threading.Thread):
     def _trace(self, sql):
         self.statements.append((self.cur_op, sql))
         conn = self.m.conn
+        # `locked`: this connection holds sqlite's write lock (BEGIN IMMEDIATE/EXCLUSIVE, or a deferred
+        # transaction that has already written).  While it does, nobody else can write, so parking here
+        # would only make the others wait for busy_timeout; everywhere else is a switch point — including
+        # inside a *deferred* transaction that has only read so far (that is where stale snapshots bite).
         if not conn.in_transaction:
+            self.locked = False
+        if not self.locked:
             self.park(("stmt", self.cur_op, sql.split(None, 3)[0:3]))
+        up = sql.lstrip().upper()
+        kw = up.split(None, 1)[0] if up else ""
+        if kw == "BEGIN" and ("IMMEDIATE" in up or "EXCLUSIVE" in up):
+            self.locked = True
+        elif conn.in_transaction and kw in ("INSERT", "UPDATE", "DELETE", "REPLACE", "CREATE", "DROP"):
+            self.locked = True
 
     def park(self, where):
         self.parked_at = where
